@@ -362,9 +362,13 @@ func Finish(prop, tier string, seed int64, rep *Report, find *Findings, meta Met
 		"wall_s":      time.Since(start).Seconds(),
 		"violations":  len(rep.Violations),
 	}
-	_ = os.MkdirAll(filepath.Join(VerifDir, "evidence"), 0o755)
+	evDir := filepath.Join(VerifDir, "evidence")
+	if d := os.Getenv("VERIF_EVIDENCE_DIR"); d != "" {
+		evDir = d // trial runs against a deliberately broken tree must not overwrite the evidence of the real one
+	}
+	_ = os.MkdirAll(evDir, 0o755)
 	b, _ := json.MarshalIndent(ev, "", " ")
-	if err := os.WriteFile(filepath.Join(VerifDir, "evidence", prop+".json"), b, 0o644); err != nil {
+	if err := os.WriteFile(filepath.Join(evDir, prop+".json"), b, 0o644); err != nil {
 		fmt.Printf("CHECK-ERROR cannot write evidence: %v\n", err)
 		return 2
 	}
